@@ -237,7 +237,7 @@ func seqHookConc(point string, args ...interface{}) {
 	case "data.rotate":
 		atomic.AddInt64(&s.rot, 1)
 	case "data.flush.exit":
-		if args[1].(int) >= 0 {
+		if args[1].(int) >= 0 && curGID() != mainGID { // the goroutine spawned by a rotation (not close flushing what is left)
 			atomic.AddInt64(&s.rot, -1)
 		}
 	case "bucket.open.bgcheck.done":
